@@ -25,7 +25,8 @@ Diag(e) == IF e.ev = "batch" /\ e.panic = ""
 Init == l = 1
 Next == /\ l <= Len(Rec)
         /\ l' = l + 1
-        /\ IF EventOK(Rec[l], l % 50000) THEN TRUE ELSE PrintT(<<"BAD", l, Rec[l].ev, Rec[l].kind, Diag(Rec[l])>>)
+        /\ IF EventOK(Rec[l], l % 50000) THEN TRUE
+           ELSE PrintT(<<"BAD", l, Rec[l].ev, Rec[l].kind>>) /\ PrintT(<<"DIAG", l, Diag(Rec[l])>>)   \* BAD line kept short: TLC wraps long tuples
 Spec == Init /\ [][Next]_l
 Accepted == TLCGet("stats").diameter - 1 = Len(Rec)
 Post == IF Accepted THEN TRUE ELSE PrintT(<<"UNCONSUMED", TLCGet("stats").diameter>>) /\ FALSE
